@@ -6,10 +6,12 @@
      * I3..I7 for every history of the repaired model (all proposed fixes applied), and for every history of
        the current model that never takes a defect branch (`clean current_cfg`);
      * at each defect site of the current code: a refutation witness.
-   `_partial`: clause I2 (output <-> producer/index) and Graph(...) called WITH arguments are not carried by
-   these theorems (they are covered by the correspondence check and the oracle only). *)
+     * I2 (outputs <-> producer/index) separately, for every history of the repaired model over the whole alphabet
+       and for every clean history of the current model (C01_outputs_reachable_fixed, C01_outputs_reachable).
+   `_partial`: for I3..I7 Graph(...) called WITH arguments is outside `in_scope` (covered by the correspondence
+   check and the oracle only). *)
 From Coq Require Import ZArith List Bool Arith Lia.
-From IRV Require Import Base.Exn C01.Model C01.Store C01.ProofsA C01.ProofsC C01.ProofsD C01.Proofs.
+From IRV Require Import Base.Exn C01.Model C01.Store C01.ProofsA C01.ProofsB C01.ProofsC C01.ProofsD C01.Proofs C01.ProofsB2.
 Import ListNotations.
 
 Theorem C01_inv_init : InvP empty_heap.
@@ -25,6 +27,16 @@ Print Assumptions C01_uses_reachable.
 Theorem C01_step_preserves_inv : forall h o, in_scope o = true -> Inv h -> Inv (fst (step all_fixed h o)).
 Proof. exact Inv_step. Qed.
 Print Assumptions C01_step_preserves_inv.
+
+(* I2 (every node output names that node and position as its producer, and conversely): repaired code, every
+   history over the whole modelled alphabet (Graph(...) with arguments included) *)
+Theorem C01_outputs_reachable_fixed : forall ops, I2 (hpo (run all_fixed ops empty_heap)).
+Proof. intros ops. apply I2_run_fixed. apply I2_empty. Qed.
+Print Assumptions C01_outputs_reachable_fixed.
+
+Theorem C01_outputs_reachable : forall ops, clean current_cfg ops empty_heap -> I2 (hpo (run current_cfg ops empty_heap)).
+Proof. intros ops Hc. rewrite clean_run by assumption. apply I2_run_fixed. apply I2_empty. Qed.
+Print Assumptions C01_outputs_reachable.
 
 (* the repaired code: every history *)
 Theorem C01_inv_reachable_fixed_partial :
@@ -119,6 +131,14 @@ Definition w_nodeouts := [NewValue 0 (Some (NUser 0)); GraphNew 0 [0] [] [] []; 
 Theorem C01_nodeoutputs_refuted : ~ InvP (run current_cfg w_nodeouts empty_heap).
 Proof. intros H. pose proof (need_noprod _ 0 H eq_refl) as X. vm_compute in X. discriminate. Qed.
 Print Assumptions C01_nodeoutputs_refuted.
+
+(* Node(outputs=[x, x]): position 0 holds x but x claims index 1 *)
+Definition w_nodeouts_dup := [NewValue 0 (Some (NUser 0)); NewNode 0 [] (OGiven [0; 0] None) None None].
+Theorem C01_nodeoutputs_dup_refuted : ~ I2 (hpo (run current_cfg w_nodeouts_dup empty_heap)).
+Proof.
+  intros [H _]. specialize (H 0 0 0 eq_refl). destruct H as [_ H]. vm_compute in H. discriminate.
+Qed.
+Print Assumptions C01_nodeoutputs_dup_refuted.
 
 (* Graph([a, foreign]) raises, a keeps the input flag and points to the half-built graph *)
 Definition w_graphnew := w_pre ++ [GraphNew 2 [0; 1] [] [] []].
